@@ -366,12 +366,52 @@ constexpr long kKindSweeps = K_COUNT * 4;
 constexpr long kFieldSweeps = 3;
 constexpr long kValiditySweeps = 7;
 constexpr long kInnerLengthSweeps = 21;
+// deterministic: "a decoder with any history" - here one that holds 1100 / 4200 / 70 000 unfinished reassemblies of as many
+// endpoints (device ids spread over the id space, all 256 streams); frames of every kind from other endpoints, and from endpoints
+// that have a message in progress, must be reported exactly as on a fresh decoder
+inline void massHistory(Ctx& c, long j)
+{
+    static const size_t ns[] = {1100, 4200, 70000};
+    const size_t n = ns[j % 3];
+    Rng r = c.fixedRng(j, 47);
+    ASAM::CMP::Decoder dec;
+    for (size_t i = 0; i < n; ++i)
+    {
+        GMsg m;
+        m.ts = i;
+        m.idWord = static_cast<uint32_t>(i);
+        m.ptype = 0x51;
+        m.flags = wire::SEG_FIRST;
+        m.payload = Bytes(8, static_cast<uint8_t>(i));
+        Bytes f = buildFrame(1, static_cast<uint16_t>((i / 256) * 239 + 5), wire::MT_DATA, static_cast<uint8_t>(i % 256), static_cast<uint16_t>(i), {m});
+        auto got = dec.decode(f.data(), f.size());
+        if (!got.empty())
+            c.violation("C04:surplus-packet", "a first segment delivered a packet", "mass history");
+    }
+    Checker ck{c};
+    for (int i = 0; i < 80; ++i)
+    {
+        FrameSpec s = genSpec(r, i < K_COUNT * 2 ? i % K_COUNT : -1, static_cast<size_t>(1 + i % 4));
+        if (i % 3 == 0)
+        {
+            // an endpoint that has a reassembly open in this decoder
+            size_t e = r.below(n);
+            s.dev = static_cast<uint16_t>((e / 256) * 239 + 5);
+            s.stream = static_cast<uint8_t>(e % 256);
+        }
+        Bytes f = buildFrame(s.ver, s.dev, s.mt, s.stream, s.seq, s.msgs);
+        ck.check(dec, f, "frame on a decoder that holds many unfinished reassemblies", mix64(specSig(s), 0x3a55 + static_cast<uint64_t>(j)));
+    }
+    c.count(n >= 65536 ? "decoders_holding_70000_unfinished_reassemblies" : "decoders_holding_thousands_of_unfinished_reassemblies");
+}
+
 constexpr long kManyMessages = 8;
 constexpr long kBigFrames = 24;
+constexpr long kMassHistory = 3;
 
 inline long count(Ctx& c)
 {
-    return kKindSweeps + kFieldSweeps + kValiditySweeps + kInnerLengthSweeps + kManyMessages + kBigFrames + (c.thorough() ? 8000000 : 300000);
+    return kKindSweeps + kFieldSweeps + kValiditySweeps + kInnerLengthSweeps + kManyMessages + kBigFrames + kMassHistory + (c.thorough() ? 8000000 : 300000);
 }
 
 inline void run(Ctx& c, long idx)
@@ -393,7 +433,10 @@ inline void run(Ctx& c, long idx)
     idx -= kManyMessages;
     if (idx < kBigFrames)
         return bigFrames(c, idx);
-    randomCase(c, idx + kKindSweeps + kFieldSweeps + kValiditySweeps + kInnerLengthSweeps + kManyMessages + kBigFrames);
+    idx -= kBigFrames;
+    if (idx < kMassHistory)
+        return massHistory(c, idx);
+    randomCase(c, idx + kKindSweeps + kFieldSweeps + kValiditySweeps + kInnerLengthSweeps + kManyMessages + kBigFrames + kMassHistory);
 }
 
 }  // namespace c04
